@@ -91,6 +91,8 @@ func run(family string, line []byte, rec *recorder, opt string) {
 		runDVB(line, rec)
 	case "ts":
 		runTS(line, rec)
+	case "pes":
+		runPES(line, rec)
 	case "demux", "pair", "merge", "skip", "rewind", "rfault", "reader", "robust":
 		var sc streamScenario
 		if err := json.Unmarshal(line, &sc); err != nil {
